@@ -97,7 +97,10 @@ def strategy_(draw, tier):
     kind = draw(st.sampled_from(["hds", "hds", "hds", "hds", "hdd-compressed", "hdd-plain"]))
     if kind == "hdd-plain":
         size_sectors = draw(st.integers(1, 6000))
-        spec = {"kind": kind, "size_sectors": size_sectors, "holes": draw(st.lists(st.integers(0, 5), max_size=2, unique=True))}
+        spec = {"kind": kind, "size_sectors": size_sectors, "holes": draw(st.lists(st.integers(0, 5), max_size=2, unique=True)),
+                # a plain image is the guest's bytes as they are — also when they start with an expanding image's header (a nested
+                # .hds at guest offset 0), a sparse-extent magic or text
+                "head": draw(st.sampled_from([None, None, "hds-v1", "hds-v2", "KDMV", "# Disk DescriptorFile\n"]))}
         spec["requests"] = draw(strat.requests(size_sectors * 512, 1 << 20, count=5))
         return spec
     hs, forced = draw(hds_spec(tier))
@@ -155,9 +158,22 @@ def check(spec) -> Outcome:
         for i in range((size + (1 << 20) - 1) >> 20):
             if i in spec["holes"]:
                 continue
-            p = Pat(0x9A000 + i, min(1 << 20, size - (i << 20)))
-            fh.put(i << 20, p)
-            lay.put(i << 20, p)
+            ln = min(1 << 20, size - (i << 20))
+            skip = 0
+            if i == 0 and spec.get("head"):
+                from hv.sparse import Lit
+
+                hb = {"hds-v1": bhdd.header_bytes({"version": 1, "cluster_sectors": 8, "size_sectors": 64, "bat_entries": 8, "first_block_offset": 8}) + bytes(32),
+                      "hds-v2": bhdd.header_bytes({"version": 2, "cluster_sectors": 8, "size_sectors": 64, "bat_entries": 8, "first_block_offset": 8}) + bytes(32)
+                      }.get(spec["head"], spec["head"].encode())[:ln]
+                head = Lit(hb)
+                fh.put(0, head)
+                lay.put(0, head)
+                skip = head.length
+            if ln > skip:
+                p = Pat(0x9A000 + i, ln - skip, base=skip)
+                fh.put((i << 20) + skip, p)
+                lay.put((i << 20) + skip, p)
         image_type = "Plain"
     else:
         fh, lay, meta = bhdd.build(spec)
